@@ -198,12 +198,18 @@ def early_return_probe(pid, mod, prog, obligations, budget_s=300):
             blk["term"].pop("callee_n", None)
             blk["term"].pop("resolved_n", None)
         t = rec["blocks"][b]["term"]
+        # `if probe_condition() { return }` : a call to a function the tree does not have, and a branch on its result
         nl = len(rec["locals"])
         rec["locals"].append({"ty": "bool", "head": "bool", "user": False})
         nb = len(rec["blocks"])
+        line = t.get("line", 0)
         rec["blocks"].append({"cleanup": False, "stmts": [], "term": {
-            "t": "switch", "d": {"k": "copy", "pl": {"l": nl, "p": []}}, "targets": [[0, t["to"]]], "otherwise": ret,
-            "dty": "bool", "line": t.get("line", 0), "exp": False}})
+            "t": "call", "callee": "probe::early_return_condition", "resolved": None, "trait": None, "args": [], "argtys": [],
+            "gargs": [], "gdefs": [], "f": {"k": "const", "ty": "fn() -> bool", "fn": "probe::early_return_condition"},
+            "dest": {"l": nl, "p": []}, "dty": "bool", "to": nb + 1, "unwind": None, "line": line, "exp": False}})
+        rec["blocks"].append({"cleanup": False, "stmts": [], "term": {
+            "t": "switch", "d": {"k": "move", "pl": {"l": nl, "p": []}}, "targets": [[0, t["to"]]], "otherwise": ret,
+            "dty": "bool", "line": line, "exp": False}})
         t["to"] = nb
         done += 1
         mp = _clone_with(prog, path, rec)
@@ -217,7 +223,7 @@ def early_return_probe(pid, mod, prog, obligations, budget_s=300):
             surv_by_fn.setdefault(fn, []).append("%s:%s after %s" % (body.file.replace("nexosim/src/", ""), t.get("line"), core.last_seg(core.norm(t.get("callee") or "?"))))
     return {
         "early_return_probe": {
-            "operator": "insert a conditional early return after one call of a cited function (normal path kept)",
+            "operator": "insert `if probe::early_return_condition() { return }` after one call of a cited function (normal path kept; the condition tests something the tree did not test before)",
             "mutants": done, "enumerated": len(mutants), "killed": killed, "exhaustive": done == len(mutants),
             "killed_by_function": kill_by_fn,
             "survivors_by_function": {k: v[:12] for k, v in sorted(surv_by_fn.items())},
